@@ -79,6 +79,25 @@ def make_filter(spec, log=None):
             log.append([bt.name, name])
         return ((bt.name, name) in pairs) != bool(spec["invert"])
 
+    # any callable is a filter: a plain function, a partial, an object with __call__, a bound method
+    # (the choice is a function of the specification, so that a case replays identically)
+    kind = (len(pairs) + (1 if spec["invert"] else 0)) % 4
+    if kind == 1:
+        import functools
+
+        return functools.partial(lambda extra, bt, name: f(bt, name), None)
+    if kind == 2:
+        class Predicate:
+            def __call__(self, bt, name):
+                return f(bt, name)
+
+        return Predicate()
+    if kind == 3:
+        class Holder:
+            def accept(self, bt, name):
+                return f(bt, name)
+
+        return Holder().accept
     return f
 
 
